@@ -299,6 +299,7 @@ func runC16Conc(c C16Conc, ev *vt.Ev) *vt.Failure {
 	if r := s.Exec(&bt.Op{K: "MutateRows", Table: "t", Entries: entries}); !r.OK() {
 		return vt.Failf("C16", "setup: %+v", r)
 	}
+	s.Inline = true // the scheduler identifies workers by goroutine
 	sc := sched.New()
 	sc.DetectBlocking = true
 	bttest.VerifYield = func(p string) {
